@@ -135,6 +135,12 @@ pub fn scenario(seed: u64, rep: &mut Report) {
         let mode = *rng.pick(&[Mode::Ip4, Mode::Ip4, Mode::Ip6, Mode::Dual]);
         let (fname, filter) = FILTERS[rng.usize(FILTERS.len())];
         let ip_limit = rng.chance(1, 4);
+        // a third of the nodes are given pre-bound sockets instead of addresses to listen on
+        let given_sockets = rng.chance(1, 3);
+        crate::rig::r2::next_rig_listens_on_given_sockets(given_sockets);
+        if given_sockets {
+            rep.count("nodes_listening_on_given_sockets");
+        }
         let mut rig = ServiceRig::start(&mut rng, ServiceCfg { mode, local_enr_has_addr: true, tweak: Box::new(move |b| {
             b.table_filter(filter);
             if ip_limit {
